@@ -92,3 +92,13 @@ def get(env):
     if key not in _cache:
         _cache[key] = Probe(env.paths["psrv"])
     return _cache[key]
+
+
+def drop_all():
+    """forget (and kill) this process's servers: used after a case was abandoned in the middle of a request"""
+    for k in [k for k in _cache if k[0] == os.getpid()]:
+        try:
+            _cache[k].p.kill()
+        except Exception:
+            pass
+        del _cache[k]
